@@ -6,6 +6,8 @@ from ..mon import hooks
 from ..mon.client import call
 from . import topo
 
+from ..ctx import level_of
+
 ID = "C11"
 KINDS = ["empty_pfx", "pfx", "whole", "inner", "empty_inner", "sfx", "empty_sfx"]
 SLEN = 10
@@ -125,7 +127,7 @@ def run(case, ctx):
         ctx.nontriv_enum()
     else:
         lines, version = case["lines"], case["version"]
-    r = call(ctx, "Gfa(list)", gfapy.Gfa, lines, version=version)
+    r = call(ctx, "Gfa(list)", gfapy.Gfa, lines, version=version, vlevel=level_of(ctx, lines))
     if not r.ok:
         ctx.violation("valid-document-refused/%s" % r.cls(), "%r: %s" % (lines[-3:], str(r.exc)[:200]), prop="C01")
         return
